@@ -13,6 +13,12 @@
     block pool is empty (hx_unit `bpr race`): they meet in alloc_pages_slow_sync (one grows the space, the others are
     served by its retry branch; yield point before the mutex); reserved == committed == 8 x live blocks is judged at
     the two quiescent points of every op — the quiescent case of accounting_exact, which is proved for all interleavings.
+(5) discontiguous monotone spaces (Map32): Props/C28Mono.lean — MonotonePageResource::alloc_pages (growth through
+    grow_discontiguous_space, the growth-FAILURE special case, new_chunk), the Space::acquire protocol and reset() over the
+    shared-pool model of C29, proved for every protocol-respecting history of any number of monotone and free-list-side
+    resources; REAL MonotonePageResource::new_discontiguous instances over the private Map32 of hx_unit `dpr` (they share
+    its 32-chunk pool with the CommonPageResources of C29) are diffed exactly against the model on histories that exhaust the
+    pool from either side, fragment it, retry after failures, release and reset; the statement oracle reads the dumps.
 """
 import argparse, json, os, random, sys, time
 from concurrent.futures import ThreadPoolExecutor
@@ -20,16 +26,24 @@ from vlib import engine as E
 from vlib import unit as U
 from vlib.engine import Case, Violation
 from checks.C34 import Proc
+from checks import layoutlib
 
 THEOREMS = ["Mmtk.Pages.accounting_exact", "Mmtk.Pages.accounting_exact_quiescent", "Mmtk.Pages.reserved_eq_committed_plus_pending",
             "Mmtk.Pages.no_underflow", "Mmtk.Pages.granted_disjoint_aligned_in_space", "Mmtk.Pages.page_granted_once",
             "Mmtk.Pages.monoAlloc_grantable", "Mmtk.Pages.inv_init", "Mmtk.Pages.inv_step", "Mmtk.Pages.Reachable.inv"]
+MONO_THEOREMS = ["Mmtk.Map32.finish_spec", "Mmtk.Map32.allocPages_spec", "Mmtk.Map32.acquire_spec", "Mmtk.Map32.grow_zero_same",
+                 "Mmtk.Map32.monoOK_frame", "Mmtk.Map32.frame_grow", "Mmtk.Map32.frame_release", "Mmtk.Map32.frame_releaseAll", "Mmtk.Map32.frame_pstep",
+                 "Mmtk.Map32.minv_init", "Mmtk.Map32.minv_malloc", "Mmtk.Map32.minv_fl", "Mmtk.Map32.minv_reset", "Mmtk.Map32.minv_step",
+                 "Mmtk.Map32.mono_history_inv", "Mmtk.Map32.mono_grant_in_space", "Mmtk.Map32.mono_grant_ne_zero", "Mmtk.Map32.mono_grants_disjoint",
+                 "Mmtk.Map32.mono_counters_exact", "Mmtk.Map32.mono_fail_changes_nothing_partial",
+                 "Mmtk.Map32.growth_failure_without_special_case_grants_zero", "Mmtk.Map32.failed_growth_forgets_current_region",
+                 "Mmtk.Map32.reset_after_failed_growth_keeps_chunks", "Mmtk.Map32.debug_self_deadlock_after_two_chunk_grant"]
 PAGE = 4096
 PLANS = ["NoGC", "SemiSpace", "GenCopy", "GenImmix", "MarkSweep", "PageProtect", "Immix", "MarkCompact", "StickyImmix", "ConcurrentImmix"]
 
 META = {
     "text": "Lean: a page resource shared by any number of threads, one transition per ATOMIC action (reserve_pages, the grant under the acquire_lock, the two counter updates of commit_pages, clear_request, the two fetch_subs of accounting.release, reset); proved for every reachable state, i.e. every interleaving: reserved = granted + pending of every thread, committed = granted + not-yet-subtracted releases, both equal the granted pages at quiescence (accounting_exact*), no counter update underflows (no_underflow), live grants are pairwise disjoint, inside the space and page aligned (granted_disjoint_aligned_in_space); the monotone cursor bump is shown to be a legal page supplier. Tie: a real contiguous MonotonePageResource is diffed exactly against the model on generated histories; T real threads race for blocks of a real private BlockPageResource with an empty pool (slow path + retry branch) and the counters are judged at quiescence; GC runs of 10 plans with the event log on are replayed by the Lean monitor (every get_new_pages / release_pages / release_block / reset / reset_cursor / reserve / clear_request event) and the model's counters are compared with the real per-space counters at every `stats`.",
-    "note": "Proof over the model; partial w.r.t. the code (hand transcription tied by sampling). The free-list / block-pool / chunk supplier is abstract (`free` page set: its correctness is C26/C19/C29); discontiguous spaces and the Compressor (needs the unified_ref build) are not run; FreeListPageResource is tied through the GC runs only, BlockPageResource through the GC runs and the real-thread race (oracle only: the grants of a race are schedule dependent, the counters at quiescence are not). Trusted: Lean kernel, hx_gc event log (HX_GC_EVENTS.md), mmtk_verif accessors.",
+    "note": "Proof over the model; partial w.r.t. the code (hand transcription tied by sampling). The free-list / block-pool / chunk supplier is abstract (`free` page set: its correctness is C26/C19/C29); discontiguous MONOTONE spaces are covered by Props/C28Mono.lean (MonotonePageResource::alloc_pages / reset over the Map32 model of C29, any number of resources sharing the pool: mono_grant_in_space, mono_grants_disjoint, mono_counters_exact for every protocol-respecting history; `a failed request changes nothing` only as mono_fail_changes_nothing_partial — the code zeroes cursor/sentinel/current chunk on a failed growth, after which reset() releases no chunk: known findings mono:failed-growth-forgets-region, mono:reset-keeps-chunks, and debug builds self-deadlock after a grant of >= 2 chunks: mono:debug-self-deadlock-after-multichunk-grant) and tied by an exact differential of real MonotonePageResource::new_discontiguous instances over a private Map32 (pool exhausted from either side, fragmented, retried, reset); discontiguous free-list spaces in GC runs and the Compressor (needs the unified_ref build) are not run; FreeListPageResource is tied through the GC runs only, BlockPageResource through the GC runs and the real-thread race (oracle only: the grants of a race are schedule dependent, the counters at quiescence are not). Trusted: Lean kernel, hx_gc event log (HX_GC_EVENTS.md), mmtk_verif accessors.",
     "technique": "Lean 4 proof (inductive invariant over all interleavings of atomic counter steps) + exact unit differential + event-log monitor on real GC runs",
     "category": "proof",
 }
@@ -159,6 +173,69 @@ class PagesUnit(U.UnitSpec):
                 k = op.split()[1] + (":fail" if x.startswith("fail") else ":panic" if x.startswith("panic") else "")
                 h[k] = h.get(k, 0) + 1
         return {"unit_op": h}
+
+
+# ------------------------------------------------------------------------------------------------
+# unit differential: real discontiguous MonotonePageResources over the private Map32 of `dpr`
+# ------------------------------------------------------------------------------------------------
+
+class MonoUnit(U.UnitSpec):
+    pid = "C28"
+    modules = ["MmtkModel.Props.C28Mono"]
+    theorems = MONO_THEOREMS
+    component = "dpr"
+    relation = ("Mmtk.Map32.Mono.{allocPages, acquire, reset} over Mmtk.Map32.PR ≙ MonotonePageResource::{alloc_pages (discontiguous), reset / "
+                "release_pages} + PageResource::{reserve_pages, get_new_pages, commit_pages, clear_request} over a private Map32 via verif::layout::dpr")
+    release_in_thorough = True
+    rule = ("dpr/mono: 1..3 REAL MonotonePageResource::new_discontiguous and 0..2 CommonPageResources over ONE private Map32 (pool = chunks 100..131); "
+            "histories of 6..80 ops: malloc (= reserve_pages, get_new_pages, clear_request on failure) of 1..33793 pages (page, half chunk, chunk +-1, "
+            "2 chunks +-1, what is left in the current region +0/+1, the whole pool +0/+1), grow / release / release_all on the free-list side, "
+            "reset(); scenarios: pool exhausted from the monotone side, from the free-list side (0..3 chunks left), fragmented (no run of 2 chunks), "
+            "random; retries after a refusal, reset after a refusal; after EVERY op the full dump (heads, lists, descriptors, avail + per monotone "
+            "resource cursor, sentinel, current chunk, reserved, committed, head, region list, live grants) is compared with the Lean model and "
+            "judged by the statement oracle; malformed stream (0 pages: debug assertion, bad index, non-numeric, 2^32 pages, a 5th resource, ops "
+            "after a panic). debug profile: no request follows a grant of >= 2048 pages before the reset (known self-deadlock, probed separately under "
+            "a timeout). non-trivial = a history with a grant and a refusal")
+
+    def gen(self, rng, tier, debug):
+        return layoutlib.mono_gen(rng, 500 if tier == "quick" else 20000, debug)
+
+    def corpus(self, debug):
+        return [Case(list(c.ops)) for c in layoutlib.MONO_CORPUS]
+
+    def oracle(self, case, impl_out):
+        return layoutlib.mono_oracle(case, impl_out)
+
+    def nontrivial(self, case, out):
+        return layoutlib.mono_nontrivial(case, out)
+
+    def summarize(self, cases, outs):
+        h = {}
+        layoutlib.mono_summarize(cases, outs, h)
+        return {"mono_op": h}
+
+
+DEADLOCK_CASE = ["cfg debug 1", "dpr new 0", "dpr mnew 40", "dpr malloc 0 2048", "dpr malloc 0 1"]
+
+
+def mono_deadlock_probe(violations):
+    """Debug builds only: the first request after a grant of >= 2 chunks makes alloc_pages call log_chunk_fields, which locks
+    the mutex alloc_pages already holds. The model answers `deadlock`; the implementation must not answer at all."""
+    exe, err, _ = E.cargo_build("hx_unit")
+    if exe is None:
+        return {}
+    t0 = time.time()
+    outs, rc, err_ = E.run_lines(exe, DEADLOCK_CASE, timeout=8, env={"VERIF_NO_DEADLOCK_GUARD": "1"})
+    mouts, mrc, _ = E.run_lines(E.model_exe(), DEADLOCK_CASE, timeout=60)
+    hung = rc == -9
+    if hung:
+        violations.append(Violation("mono:debug-self-deadlock-after-multichunk-grant",
+                                    "`dpr malloc 0 1` after a grant of 2048 pages never returns (8 s timeout): MonotonePageResource::alloc_pages calls "
+                                    "log_chunk_fields (sync.lock()) while holding the sync mutex", DEADLOCK_CASE, outs, mouts, True))
+    if (mouts[-1:] == ["deadlock"]) != hung:
+        violations.append(Violation("correspondence:dpr:deadlock-probe", f"model answers {mouts[-1:]}, implementation {'hangs' if hung else outs[-1:]}",
+                                    DEADLOCK_CASE, outs, mouts, False, broken="correspondence Mono.allocPages debug-assertion block"))
+    return {"deadlock_probe": {"hung": hung, "model": mouts[-1:], "wall_s": round(time.time() - t0, 1)}}
 
 
 # ------------------------------------------------------------------------------------------------
@@ -534,9 +611,14 @@ def main(argv=None):
         return E.finish("C28", a.tier, a.seed, t0, {"obligations": len(THEOREMS), "discharged": 0}, {}, violations, level="proof of the model, partial w.r.t. the code")
     if a.replay:
         return replay(a.replay, exe, spec)
-    lean = E.lean_check(spec.modules, THEOREMS, fresh=(a.tier == "thorough"))
-    lean["targets"] = spec.modules
+    mono = MonoUnit()
+    lean = E.lean_check(spec.modules + mono.modules, THEOREMS + MONO_THEOREMS, fresh=(a.tier == "thorough"))
+    lean["targets"] = spec.modules + mono.modules
     U.run_profile(spec, a.tier, a.seed, True, lean["ok"], violations, stats)
+    U.run_profile(mono, a.tier, a.seed + 104729, True, lean["ok"], violations, stats)
+    if a.tier == "thorough":
+        U.run_profile(mono, a.tier, a.seed + 104729, False, lean["ok"], violations, stats)
+    stats.setdefault("distribution", {}).update(mono_deadlock_probe(violations))
     unit_evals = stats.get("evaluations", 0)
     progs = programs(a.tier, a.seed)
     with ThreadPoolExecutor(6) as ex:
@@ -582,21 +664,29 @@ def main(argv=None):
                                     broken=str([f.get('theorem') or f.get('module') or f['kind'] for f in lean['failures']])))
     udist = stats.get("distribution", {}); udist.update(dist)
     corr = {"evaluations": unit_evals + evals, "unit_cases": unit_evals, "stats_points_checked": evals,
-            "distinct_nontrivial": len(stats.pop("_distinct", set())) + len(distinct), "rule": spec.rule, "gc_rule": GC_RULE,
+            "distinct_nontrivial": len(stats.pop("_distinct", set())) + len(distinct), "rule": spec.rule, "mono_rule": MonoUnit.rule, "gc_rule": GC_RULE,
             "samples": stats.get("samples", [])[:2] + samples, "traces_validated_against_impl": ok_traces, "programs": len(progs),
             "disagreements_checked": stats.get("disagreements", 0), "distribution": udist, "harness_build_s": bs, "lean_s": lean.get("lean_s")}
     return E.finish("C28", a.tier, a.seed, t0, lean, corr, violations, level="proof of the model, partial w.r.t. the code",
                     assumptions=["64-bit target: every space is contiguous (`spaces` reports contiguous=1)",
                                  "the event log is complete for page-resource actions (HX_GC_EVENTS.md kinds 50-58) and totally ordered by its sequence number",
                                  "`stats` is read at quiescent points (no thread inside acquire/release)",
-                                 "the page supplier (free list / block pool / chunk map) hands out only free pages: C26, C19, C29"])
+                                 "the page supplier (free list / block pool / chunk map) hands out only free pages: C26, C19, C29",
+                                 "discontiguous monotone spaces: histories follow `MPre` (requests of >= 1 page; free-list-side resources use head slots below the "
+                                 "monotone ones and release regions they own; at most 4097 regions per resource); Map32 modelled at run level (C29); single-threaded "
+                                 "use of each page resource (alloc_pages holds the resource's mutex); stand-alone resources, no memory is mapped"])
 
 
 def replay(path, exe, spec):
     data = json.load(open(path))
     c = data["case"]
     if isinstance(c, list):
-        return U.replay(spec, path)
+        if c == DEADLOCK_CASE:
+            v = []
+            mono_deadlock_probe(v)
+            print("REPLAY:", "violation reproduced" if v else "no longer reproduces")
+            return 1 if v else 0
+        return U.replay(MonoUnit() if any(l.startswith("dpr ") for l in c) else spec, path)
     if "bpr_lines" in c:
         viol, st = run_bpr("quick", 0, [c["bpr_lines"]])
         for k, w, _ in viol[:8]:
